@@ -19,8 +19,31 @@ public:
 
 	friend void swap(small_vector &a, small_vector &b) {
 		using std::swap;
+		if(&a == &b)
+			return;
 		swap(a._allocator, b._allocator);
-		swap(a._array, b._array);
+		// Elements in the inline storage are objects: relocate them one by one
+		// (move-construct + destroy) instead of swapping the bytes of _array.
+		T *a_inline = reinterpret_cast<T *>(&a._array[0].buffer);
+		T *b_inline = reinterpret_cast<T *>(&b._array[0].buffer);
+		size_t a_count = a._is_small() ? a._size : 0;
+		size_t b_count = b._is_small() ? b._size : 0;
+		size_t common = a_count < b_count ? a_count : b_count;
+		for(size_t i = 0; i < common; i++) {
+			T tmp(std::move(a_inline[i]));
+			a_inline[i].~T();
+			new (&a_inline[i]) T(std::move(b_inline[i]));
+			b_inline[i].~T();
+			new (&b_inline[i]) T(std::move(tmp));
+		}
+		for(size_t i = common; i < a_count; i++) {
+			new (&b_inline[i]) T(std::move(a_inline[i]));
+			a_inline[i].~T();
+		}
+		for(size_t i = common; i < b_count; i++) {
+			new (&a_inline[i]) T(std::move(b_inline[i]));
+			b_inline[i].~T();
+		}
 		swap(a._elements, b._elements);
 		swap(a._size, b._size);
 		swap(a._capacity, b._capacity);
